@@ -31,3 +31,4 @@ _reg("C20")
 _reg("C21")
 _reg("C23")
 _reg("C25")
+_reg("C22")
